@@ -166,4 +166,5 @@ Extraction "model.ml"
   Doc.norm
   Doc.std_opts
   Doc.mkDoc
+  Doc.wf_doc
 .
